@@ -256,10 +256,12 @@ func c15EscapeExt(c *Cfg, r *Rng) {
 // (the property: the ways of checking reject the same files; a list is a set of files).  The
 // list is checked again reversed: acceptance must be the same and, when accepted, the valid
 // SET must be the same.  Known finding checkfiles-dup-path-order: two non-directory entries
-// with the same path of which one is a symlink / irregular file (reported "omitted" after it
-// entered the collision map): the error of the other entry is dropped by addError's per-path
-// de-duplication when the omitted one comes first.  Any other disagreement is reported as
-// checkfiles-order.
+// with the same path; the one met first is reported "omitted" (a symlink / irregular file after
+// it entered the collision map, or any file omitted for its path: vendored, nested module, …)
+// and the INVALID report of the other one ("multiple entries", or its Lstat error) is dropped by
+// addError's per-path de-duplication.  The class is given only when a duplicated path has an
+// entry of kind symlink / irregular / lstat-error, exactly one order is accepted, and the
+// accepting order lists that path as omitted.  Any other disagreement is checkfiles-order.
 func c15OrderPredicate(c *Cfg, fsz []c15File, cf modzip.CheckedFiles, words []string) {
 	if len(fsz) < 2 {
 		return
@@ -284,15 +286,27 @@ func c15OrderPredicate(c *Cfg, fsz []c15File, cf modzip.CheckedFiles, words []st
 			continue
 		}
 		cnt[f.path]++
-		if f.kind == 'l' || f.kind == 'o' {
+		// an entry that is reported for a reason of its KIND: symlink / irregular (omitted after
+		// it entered the collision map) or Lstat error (invalid, tested before every path rule)
+		if f.kind == 'l' || f.kind == 'o' || f.kind == 'e' {
 			irr[f.path] = true
 		}
+	}
+	// the accepting order must have reported the duplicated path as omitted (that report is
+	// what swallows the other entry's error)
+	acc := cf
+	if errA {
+		acc = rcf
+	}
+	omitted := map[string]bool{}
+	for _, e := range acc.Omitted {
+		omitted[e.Path] = true
 	}
 	dup := false
 	for p, n := range cnt {
 		if n >= 2 {
 			dup = true
-			if irr[p] {
+			if irr[p] && errA != errB && omitted[p] {
 				class = "checkfiles-dup-path-order"
 			}
 		}
